@@ -44,7 +44,10 @@ LEVEL_NOTE = "Trusted: dna.rot / ref_all_starts; rotation 0 of the implementatio
 WALL_CAP = {"quick": 280, "thorough": 5400}
 
 
-def answers(cls, word, real_from=None, k=0):
+_ALIVE = []
+
+
+def answers(cls, word, real_from=None, k=0, keep=False):
     from Bio.Seq import Seq
     from moclo.record import CircularRecord
     if real_from is not None:
@@ -52,6 +55,10 @@ def answers(cls, word, real_from=None, k=0):
     else:
         r = CircularRecord(Seq(word), id="x")
     ent = cls(r)
+    if keep:
+        # the unrotated wrapper stays alive while the rotated copies are
+        # queried, as it does in a program that holds on to its parts
+        _ALIVE.append(ent)
     ok = ent.is_valid()
     if not ok:
         return (False,)
@@ -72,7 +79,8 @@ def sweep(cls, word, ks, ctx, spec_base, what, use_real=False):
         return 0
     ref = dna.ref_search(pattern, word, True)
     ms, me = ref.start, ref.end
-    base = sut(answers, cls, word)
+    del _ALIVE[:]
+    base = sut(answers, cls, word, None, 0, True)
     real0 = CircularRecord(Seq(word), id="x") if use_real else None
     nt = 0
     for k in ks:
